@@ -53,6 +53,114 @@ func caseTable(fn *core.FuncInfo, label func(e ast.Expr) string) (map[string]*as
 	return out, def
 }
 
+// dispatchTable generalises caseTable: the table of a function that maps a key to a result, written as a switch
+// over the key or as a lookup in a map (package-level variable or local literal) followed by a fall-back return:
+//
+//	if v, ok := table[key]; ok { return v() }     // or: return v
+//	return <default>
+//
+// Entries and default are returned as syntax nodes (a case clause, a map value expression, a return statement).
+func dispatchTable(w *core.World, fn *core.FuncInfo, label func(e ast.Expr) string) (map[string]ast.Node, ast.Node) {
+	tab, def := caseTable(fn, label)
+	if len(tab) > 0 {
+		out := map[string]ast.Node{}
+		for k, v := range tab {
+			out[k] = v
+		}
+		if def != nil {
+			return out, def
+		}
+		return out, nil
+	}
+	info := fn.Pkg.TypesInfo
+	var lit *ast.CompositeLit
+	litPkg := fn.Pkg
+	ast.Inspect(fn.Decl.Body, func(n ast.Node) bool {
+		ix, ok := n.(*ast.IndexExpr)
+		if !ok || lit != nil {
+			return true
+		}
+		t := info.TypeOf(ix.X)
+		if t == nil {
+			return true
+		}
+		if _, isMap := t.Underlying().(*types.Map); !isMap {
+			return true
+		}
+		switch x := ast.Unparen(ix.X).(type) {
+		case *ast.CompositeLit:
+			lit = x
+		case *ast.Ident, *ast.SelectorExpr:
+			var v *types.Var
+			if id, ok := x.(*ast.Ident); ok {
+				v, _ = info.Uses[id].(*types.Var)
+			} else {
+				v, _ = info.Uses[x.(*ast.SelectorExpr).Sel].(*types.Var)
+			}
+			if v == nil {
+				return true
+			}
+			if v.Pkg() != nil && v.Parent() == v.Pkg().Scope() {
+				if _, mutated := runtimeMutatedGlobals(w)[v]; mutated {
+					return true
+				}
+				for _, p := range w.ByPath {
+					if p.Types != v.Pkg() {
+						continue
+					}
+					for _, file := range p.Syntax {
+						for _, d := range file.Decls {
+							gd, isGen := d.(*ast.GenDecl)
+							if !isGen {
+								continue
+							}
+							for _, sp := range gd.Specs {
+								vs, isVS := sp.(*ast.ValueSpec)
+								if !isVS {
+									continue
+								}
+								for i, nm := range vs.Names {
+									if p.TypesInfo.Defs[nm] == v && i < len(vs.Values) {
+										if cl, ok := ast.Unparen(vs.Values[i]).(*ast.CompositeLit); ok {
+											lit, litPkg = cl, p
+										}
+									}
+								}
+							}
+						}
+					}
+				}
+			} else if defs := localDefs(fn, v); len(defs) == 1 {
+				if cl, ok := ast.Unparen(defs[0].rhs).(*ast.CompositeLit); ok {
+					lit = cl
+				}
+			}
+		}
+		return true
+	})
+	if lit == nil {
+		return map[string]ast.Node{}, nil
+	}
+	_ = litPkg
+	out := map[string]ast.Node{}
+	for _, el := range lit.Elts {
+		kv, ok := el.(*ast.KeyValueExpr)
+		if !ok {
+			continue
+		}
+		if l := label(kv.Key); l != "" {
+			out[l] = kv.Value
+		}
+	}
+	var dflt ast.Node
+	if n := len(fn.Decl.Body.List); n > 0 {
+		if rs, ok := fn.Decl.Body.List[n-1].(*ast.ReturnStmt); ok {
+			dflt = rs
+		}
+	}
+	return out, dflt
+}
+
 func strLabel(info *types.Info) func(ast.Expr) string {
 	return func(e ast.Expr) string {
 		if v := core.ConstVal(info, e); v != nil && v.Kind() == constant.String {
@@ -625,9 +733,12 @@ func c08Registry(r *core.Run) {
 	}
 	r.Fn(get)
 	info := get.Pkg.TypesInfo
-	tab, def := caseTable(get, constLabel(info, "CompressorType"))
-	retType := func(cc *ast.CaseClause) *types.Named {
+	tab, def := dispatchTable(w, get, constLabel(info, "CompressorType"))
+	retType := func(cc ast.Node) *types.Named {
 		var out *types.Named
+		if cc == nil {
+			return nil
+		}
 		ast.Inspect(cc, func(n ast.Node) bool {
 			if cl, ok := n.(*ast.CompositeLit); ok {
 				if nt, ok := info.TypeOf(cl).(*types.Named); ok {
